@@ -109,6 +109,8 @@ func (f *Family) URL(pos int, typ string, slot int, kind string) string {
 		return "http://" + host + path
 	case "HTTP":
 		return "HTTP://" + host + path
+	case "Http":
+		return "Http://" + host + path
 	case "httpoq":
 		// a responder URL with a path and a query component
 		if typ == "o" {
